@@ -77,6 +77,23 @@ fn structured_strings() -> Vec<Vec<u8>> {
         s[1] = b'\\';
         v.push(s);
     }
+    // texts long enough for the long-bracket form holding every combination of closing brackets of levels 0-3
+    // (the level chosen for the literal has to avoid all of them), with and without a trailing `]`
+    for mask in 0u32..16 {
+        for tail in [false, true] {
+            let mut s = b"a text that is long enough to be written between long brackets: ".to_vec();
+            for (lvl, closer) in ["]]", "]=]", "]==]", "]===]"].iter().enumerate() {
+                if mask & (1 << lvl) != 0 {
+                    s.extend_from_slice(format!("close {} then ", closer).as_bytes());
+                }
+            }
+            s.extend_from_slice(b"the end");
+            if tail {
+                s.push(b']');
+            }
+            v.push(s);
+        }
+    }
     // newline counts around the threshold, with and without brackets inside
     for n in 3..=8 {
         let mut s = vec![];
